@@ -483,3 +483,448 @@ def flow_with_gates(func, gates, null_vars=(), cap=512):
 
     init = (frozenset(), tuple("?" for _ in nv))
     return forward_states(func, init, transfer, refine, cap=cap)
+
+
+# --------------------------------------------------------------------------
+# tiny interval evaluation of an expression at a program point (for shift / index bounds)
+# --------------------------------------------------------------------------
+
+INF = float("inf")
+_UMAX = {"unsigned char": 255, "unsigned short": 65535, "unsigned int": 2**32 - 1, "unsigned long": 2**64 - 1,
+         "char": 127, "signed char": 127, "short": 32767, "int": 2**31 - 1, "long": 2**63 - 1}
+_UNSIGNED = ("unsigned char", "unsigned short", "unsigned int", "unsigned long", "_Bool")
+
+
+def type_bits(ty):
+    return {"unsigned char": 8, "char": 8, "signed char": 8, "unsigned short": 16, "short": 16, "unsigned int": 32, "int": 32,
+            "unsigned long": 64, "long": 64, "long long": 64, "unsigned long long": 64}.get(ty)
+
+
+def promoted_bits(ty):
+    b = type_bits(ty)
+    if b is None:
+        return None
+    return max(b, 32)
+
+
+def interval(e, facts=(), prog=None, func=None, depth=0, point=None):
+    """[lo, hi] of integer expression e given must-facts [(tree,pol)] (bounds on access paths)."""
+    e0 = e
+    e = strip(e)
+    if e is None:
+        return (-INF, INF)
+    if e.get("v") is not None:
+        return (e["v"], e["v"])
+    ty = e.get("ty", "")
+    tlo, thi = (-INF, INF)
+    if ty in _UNSIGNED:
+        tlo = 0
+    if ty in _UMAX:
+        thi = _UMAX[ty]
+        if ty not in _UNSIGNED:
+            tlo = -thi - 1
+    k = e.get("k")
+    lo, hi = tlo, thi
+    p = path(e)
+    if p is not None:
+        for c, pol in facts:
+            op, l, r = norm_cmp(c, pol)
+            if r is None:
+                continue
+            for a, b, o in ((l, r, op), (r, l, SWAP.get(op))):
+                if o is None or path(a) != p:
+                    continue
+                bl, bh = interval(b, (), prog, func, depth + 1) if depth < 3 else (-INF, INF)
+                if o == "<" and bh != INF:
+                    hi = min(hi, bh - 1)
+                elif o == "<=" and bh != INF:
+                    hi = min(hi, bh)
+                elif o == ">" and bl != -INF:
+                    lo = max(lo, bl + 1)
+                elif o == ">=" and bl != -INF:
+                    lo = max(lo, bl)
+                elif o == "==":
+                    if bh != INF:
+                        hi = min(hi, bh)
+                    if bl != -INF:
+                        lo = max(lo, bl)
+        # parameter: bound by what every caller passes
+        if k == "var" and e.get("vk") == "param" and prog is not None and func is not None and depth < 2 and (hi == thi):
+            idx = func.param_index(e["n"])
+            cs = prog.callers_of(func)
+            if idx is not None and cs and not _param_written(func, e["n"]):
+                his = []
+                for cf, cb, ci, cc in cs:
+                    a = call_arg(cc, idx)
+                    his.append(interval(a, (), prog, cf, depth + 1)[1] if a is not None else INF)
+                if his:
+                    hi = min(hi, max(his))
+        if k == "var" and func is not None and point is not None and hi == thi:
+            # clamp pattern `if (v > K) v = K;` dominating the point with no other write in between
+            for cl in find_clamps(func, e["n"]):
+                if cl["kind"] != "cap":
+                    continue
+                cb = cl["block"].id
+                if cb not in func.dominators().get(point[0], ()) or cb == point[0]:
+                    continue
+                tb, ti = cl["asg"]
+                after = reach_after(func, cb, len(func.blocks[cb].els) - 1)
+                bad = False
+                for wb_, wi, wel in func.elements():
+                    if wel["k"] == "asg" and path(wel["e"]["l"]) == e["n"] and not (wb_.id == tb.id and wi == ti):
+                        if (wb_.id, wi) in after and point in reach_after(func, wb_.id, wi) | {point}:
+                            bad = True
+                if not bad:
+                    bh = interval(cl["bound"], (), prog, func, depth + 1)[1]
+                    hi = min(hi, bh)
+        if k == "var" and e.get("vk") == "local" and func is not None and depth < 2 and hi == thi:
+            wb = _local_write_bound(func, e["n"], prog, depth)
+            if wb is not None:
+                hi = min(hi, wb)
+        return (lo, hi)
+    if k == "bin":
+        a = interval(e["l"], facts, prog, func, depth, point)
+        b = interval(e["r"], facts, prog, func, depth, point)
+        op = e["op"]
+        if op == "%" and b[0] == b[1] and b[0] > 0:
+            if a[0] >= 0:
+                return (0, min(a[1], b[0] - 1))
+            return (-(b[0] - 1), b[0] - 1)
+        if op == "&":
+            cands = [x[1] for x in (a, b) if x[0] >= 0 and x[1] != INF]
+            if cands:
+                return (0, min(cands))
+            return (lo, hi)
+        if op == "+":
+            return (max(lo, a[0] + b[0]), min(hi, a[1] + b[1]))
+        if op == "-":
+            rl, rh = a[0] - b[1], a[1] - b[0]
+            if tlo == 0 and rl < 0:
+                return (tlo, thi)   # may wrap
+            return (max(lo, rl), min(hi, rh))
+        if op == "*" and a[0] >= 0 and b[0] >= 0:
+            return (a[0] * b[0], min(hi, a[1] * b[1]))
+        if op == "/" and b[0] > 0 and a[0] >= 0:
+            return (0, a[1] // b[0] if a[1] != INF else INF)
+        if op == "<<" and a[0] >= 0 and b[0] >= 0 and b[1] != INF and a[1] != INF:
+            return (0, min(hi, a[1] << int(b[1])))
+        if op == ">>" and a[0] >= 0:
+            return (0, a[1])
+        return (lo, hi)
+    if k == "cond":
+        a = interval(e["t"], facts, prog, func, depth)
+        b = interval(e["f"], facts, prog, func, depth)
+        return (min(a[0], b[0]), max(a[1], b[1]))
+    return (lo, hi)
+
+
+def find_clamps(func, var):
+    """list of dict(kind='floor'|'cap', bound, block, asg=(blk,i), extra_conds)"""
+    out = []
+    for bid in func.rpo():
+        br = func.branch(bid)
+        if not br:
+            continue
+        for c, p in atoms(br[0], True):
+            op, l, rr = norm_cmp(c, p)
+            if rr is None or op not in ("<", ">", "<=", ">="):
+                continue
+            for a, b2, o in ((l, rr, op), (rr, l, SWAP[op])):
+                if path(a) != var:
+                    continue
+                tb = func.blocks[br[1]] if br[1] is not None else None
+                if tb is None:
+                    continue
+                for i, el in enumerate(tb.els):
+                    if el["k"] == "asg" and el["e"]["op"] == "=" and path(el["e"]["l"]) == var and render(strip(el["e"]["r"])) == render(strip(b2)):
+                        out.append({"kind": "floor" if o in ("<", "<=") else "cap", "bound": b2, "block": func.blocks[bid], "asg": (tb, i)})
+    return out
+
+
+
+def _local_write_bound(func, name, prog, depth):
+    """upper bound of a local that is only ever assigned bounded values and otherwise decremented"""
+    his = []
+    for b, i, el in func.elements():
+        if el["k"] == "decl":
+            for v in el["vars"]:
+                if v["n"] == name:
+                    if v.get("init") is None:
+                        continue
+                    his.append(interval(v["init"], (), prog, func, depth + 1)[1])
+        elif el["k"] == "asg" and path(el["e"]["l"]) == name:
+            op = el["e"]["op"]
+            if op in ("--", "-=", "/=", ">>=", "%=", "&="):
+                continue
+            if op == "=":
+                his.append(interval(el["e"]["r"], (), prog, func, depth + 1)[1])
+            else:
+                return None
+        elif el["k"] == "call" and name in addr_taken_args(el["e"]):
+            return None
+    return max(his) if his else None
+
+
+def _param_written(func, name):
+    for b, i, el in func.elements():
+        if el["k"] == "asg" and path(el["e"]["l"]) == name:
+            return True
+        if el["k"] == "call" and name in addr_taken_args(el["e"]):
+            return True
+    return False
+
+
+def all_exprs_with_points(func):
+    """yield (block, idx|'term', root_tree) for every element and terminator condition"""
+    for b in func.blocks.values():
+        for i, el in enumerate(b.els):
+            if el["k"] == "decl":
+                for v in el["vars"]:
+                    if v.get("init"):
+                        yield b, i, v["init"]
+            elif el.get("e") is not None:
+                yield b, i, el["e"]
+        if b.term and b.term.get("cond") is not None:
+            yield b, len(b.els), b.term["cond"]
+
+
+def loop_var_facts(func, blk):
+    """extra facts for a block inside `for (i = A; i > 0; i--)`-style loops are already in must-facts
+    via the loop condition edge; nothing to add (placeholder for documentation)."""
+    return []
+
+
+# --------------------------------------------------------------------------
+# A-VS: finite value sets of enum/bool locals, disjunctive, with call summaries
+# --------------------------------------------------------------------------
+
+class ValueSets:
+    """Tracks locals/params whose canonical type is an enum (ares_status_t, ares_bool_t, ...).
+    State = (vals, extra): vals is a tuple of frozensets aligned with self.names; extra is an
+    opaque hashable owned by the rule (typestate).  Hooks:
+      on_el(extra, blk, i, el, get) -> iterable of new extras   (get(name) -> frozenset)
+      on_edge(extra, blk, cond, pol, get) -> extra or None
+    """
+
+    def __init__(self, prog, func, names=None, summaries=None, on_el=None, on_edge=None, init_extra=None, cap=512,
+                 extra_domains=None):
+        self.prog, self.f = prog, func
+        self.summ = summaries
+        self.on_el, self.on_edge = on_el, on_edge
+        dom = {}
+        for v in func.vars.values():
+            if names is not None and v["n"] not in names:
+                continue
+            en = prog.enums.get(v["ty"])
+            if en is not None:
+                dom[v["n"]] = frozenset(it["n"] for it in en["items"])
+        if extra_domains:
+            dom.update(extra_domains)
+        self.names = sorted(dom)
+        self.idx = {n: k for k, n in enumerate(self.names)}
+        self.dom = dom
+        self.zero = {}
+        for n in self.names:
+            en = prog.enums.get(func_var_type(func, n))
+            if en:
+                self.zero[n] = frozenset(it["n"] for it in en["items"] if it["v"] == 0)
+        init = (tuple(dom[n] for n in self.names), init_extra)
+        self.at = forward_states(func, init, self._transfer, self._refine, cap=cap, switch_refine=self._switch)
+
+    # ---- evaluation ----
+    def eval(self, e, vals):
+        """value set (frozenset of enumerator names) of expression e, or None = unknown"""
+        e = strip(e)
+        if e is None:
+            return None
+        k = e.get("k")
+        if k == "enum":
+            return frozenset([e["n"]])
+        if k == "var" and e["n"] in self.idx:
+            return vals[self.idx[e["n"]]]
+        if k == "cond":
+            a, b = self.eval(e["t"], vals), self.eval(e["f"], vals)
+            return None if a is None or b is None else a | b
+        if k == "call" and self.summ is not None:
+            return self.summ.call_return_set(self.f, e)
+        if k == "asg" and e["op"] == "=":
+            return self.eval(e["r"], vals)
+        return None
+
+    def _set(self, vals, name, s):
+        if name not in self.idx:
+            return vals
+        if s is None:
+            s = self.dom[name]
+        else:
+            s = s & self.dom[name] if (s & self.dom[name]) else self.dom[name]
+        l = list(vals)
+        l[self.idx[name]] = s
+        return tuple(l)
+
+    def _transfer(self, st, blk, i, el):
+        vals, extra = st
+        k = el["k"]
+        outs_vals = [vals]
+        if k == "decl":
+            for v in el["vars"]:
+                if v["n"] in self.idx:
+                    vals = self._set(vals, v["n"], self.eval(v.get("init"), vals) if v.get("init") is not None else None)
+            outs_vals = [vals]
+        elif k == "asg":
+            p = path(el["e"]["l"])
+            if p in self.idx:
+                if el["e"]["op"] == "=":
+                    s = self.eval(el["e"]["r"], vals)
+                    if s is not None and len(s) > 1 and self.summ is not None and strip(el["e"]["r"]).get("k") == "call":
+                        # split per returned value so that later refinement / typestate can correlate
+                        outs_vals = [self._set(vals, p, frozenset([x])) for x in sorted(s) if x in self.dom[p]] or [self._set(vals, p, None)]
+                    else:
+                        outs_vals = [self._set(vals, p, s)]
+                else:
+                    outs_vals = [self._set(vals, p, None)]
+        elif k == "call":
+            for a in addr_taken_args(el["e"]):
+                if a in self.idx:
+                    vals = self._set(vals, a, None)
+            outs_vals = [vals]
+        res = []
+        for v2 in outs_vals:
+            if self.on_el:
+                get = lambda n, vv=v2: vv[self.idx[n]] if n in self.idx else None
+                for ex in self.on_el(extra, blk, i, el, get):
+                    res.append((v2, ex))
+            else:
+                res.append((v2, extra))
+        return res
+
+    def _refine_vals(self, vals, cond, pol):
+        for c, p in atoms(cond, pol):
+            op, l, r = norm_cmp(c, p)
+            n = path(l) if l is not None else None
+            # assignment inside condition: (x = f()) != K
+            ls = strip(l)
+            if ls is not None and ls.get("k") == "asg" and ls["op"] == "=":
+                n = path(ls["l"])
+            if n in self.idx:
+                cur = vals[self.idx[n]]
+                if op in ("==", "!="):
+                    rs = self.eval(r, vals)
+                    if rs is not None and len(rs) == 1:
+                        new = (cur & rs) if op == "==" else (cur - rs)
+                    elif r is not None and const_val(r) == 0 and n in self.zero:
+                        new = (cur & self.zero[n]) if op == "==" else (cur - self.zero[n])
+                    else:
+                        new = cur
+                elif op == "truth" and n in self.zero:
+                    new = cur - self.zero[n]
+                elif op == "false" and n in self.zero:
+                    new = cur & self.zero[n]
+                else:
+                    new = cur
+                if not new:
+                    return None
+                l2 = list(vals)
+                l2[self.idx[n]] = new
+                vals = tuple(l2)
+            elif r is not None and path(r) in self.idx and op in ("==", "!="):
+                n2 = path(r)
+                ls_ = self.eval(l, vals)
+                if ls_ is not None and len(ls_) == 1:
+                    cur = vals[self.idx[n2]]
+                    new = (cur & ls_) if op == "==" else (cur - ls_)
+                    if not new:
+                        return None
+                    l2 = list(vals)
+                    l2[self.idx[n2]] = new
+                    vals = tuple(l2)
+        return vals
+
+    def _refine(self, st, cond, pol, blk):
+        vals, extra = st
+        vals = self._refine_vals(vals, cond, pol)
+        if vals is None:
+            return None
+        if self.on_edge:
+            get = lambda n: vals[self.idx[n]] if n in self.idx else None
+            extra = self.on_edge(extra, blk, cond, pol, get)
+            if extra is None:
+                return None
+        return (vals, extra)
+
+    def _switch(self, st, sw, casevals, allvals):
+        vals, extra = st
+        n = path(sw)
+        if n in self.idx:
+            cur = vals[self.idx[n]]
+            if isinstance(casevals, list):
+                names = frozenset(x for x in (name_of_const(v) for v in casevals) if x)
+                new = cur & names if names else cur
+            else:
+                names = frozenset(x for x in (name_of_const(v) for v in allvals) if x)
+                new = cur - names
+            if not new:
+                return None
+            l2 = list(vals)
+            l2[self.idx[n]] = new
+            vals = tuple(l2)
+        return (vals, extra)
+
+    # ---- queries ----
+    def states_at(self, b, i):
+        bid = b.id if isinstance(b, Block) else b
+        return self.at.get((bid, i), set())
+
+    def get(self, st, name):
+        return st[0][self.idx[name]] if name in self.idx else None
+
+
+def func_var_type(func, name):
+    for v in func.vars.values():
+        if v["n"] == name:
+            return v["ty"]
+    return None
+
+
+class Summaries:
+    """memoised return value sets of functions returning an enum type."""
+
+    def __init__(self, prog):
+        self.prog = prog
+        self.memo = {}
+        self.active = set()
+
+    def return_set(self, func):
+        if func.key in self.memo:
+            return self.memo[func.key]
+        en = self.prog.enums.get(func.ret)
+        if en is None:
+            self.memo[func.key] = None
+            return None
+        full = frozenset(it["n"] for it in en["items"])
+        if func.key in self.active:
+            return full
+        self.active.add(func.key)
+        try:
+            vs = ValueSets(self.prog, func, summaries=self, cap=2048)
+            out = set()
+            for b, i, el in func.returns():
+                for st in vs.states_at(b, i):
+                    s = vs.eval(el.get("e"), st[0])
+                    if s is None:
+                        out |= full
+                    else:
+                        out |= s
+            res = frozenset(out) if out else full
+        except AnalysisBroken:
+            res = full
+        finally:
+            self.active.discard(func.key)
+        self.memo[func.key] = res
+        return res
+
+    def call_return_set(self, caller, callnode):
+        t = self.prog.resolve(caller, callnode)
+        if t is None:
+            return None
+        return self.return_set(t)
